@@ -453,7 +453,7 @@ func TestVerifC07(t *testing.T) {
 	})
 
 	// ------------------------------------------------------------ manifests
-	run.Cases("manifests", run.N(3000, 30000), func(i int, rng *verifkit.Rand) {
+	run.Cases("manifests", run.N(2400, 24000), func(i int, rng *verifkit.Rand) {
 		now := time.Now().Unix()
 		m := c07GenManifest(rng, now)
 		run.Input(m, false)
